@@ -1,4 +1,5 @@
 import ServiceModel.Model.Step
+import ServiceModel.Basic.Scan
 /-!
 # The query interface (keeper/grpc_query.go, keeper/querier.go)
 
@@ -7,7 +8,7 @@ keeper methods; that each of them answers like this function is what the corresp
 run establishes (`query via=grpc|legacy` ops, harness/SPEC.md §4.1).
 
 Every answer is computed the way the code computes it — a direct lookup, or a scan of an
-index followed by lookups — not from the "intended" set of records; that the two coincide in
+index followed by lookups — not from the "intended" set of records (a scan is `entries`/`elems`: each stored key once, see Basic/Scan.lean); that the two coincide in
 every reachable state is the content of `Properties/C17.lean`.
 -/
 namespace SM
@@ -67,7 +68,7 @@ def reqView (s : State) (r : ReqId) : Option ReqView :=
 
 /-- keeper/binding.go GetOwnerServiceBindings: scan of the owner index, then a lookup per entry -/
 def ownerBindings (s : State) (owner : Addr) (svc : SvcName) : List ((SvcName × Addr) × Binding) :=
-  (s.ownerBind.filter (fun e => e.1 = owner ∧ e.2.1 = svc)).filterMap (fun e =>
+  ((FSet.elems s.ownerBind).filter (fun e => e.1 = owner ∧ e.2.1 = svc)).filterMap (fun e =>
     (get s.bindings (e.2.1, e.2.2)).map (fun b => ((e.2.1, e.2.2), b)))
 
 def query (s : State) : Query → Except QErr Answer
@@ -80,17 +81,17 @@ def query (s : State) : Query → Except QErr Answer
     | none => .error .unknownBinding
     | some b => .ok (.bindings [((svc, prov), b)])
   | .bindings svc owner =>
-    if owner = "" then .ok (.bindings (s.bindings.filter (fun e => e.1.1 = svc)))
+    if owner = "" then .ok (.bindings ((entries s.bindings).filter (fun e => e.1.1 = svc)))
     else .ok (.bindings (ownerBindings s owner svc))
   | .withdraw owner => .ok (.withdraw owner ((get s.withdraw owner).getD owner))
   | .context c => .ok (.context c (get s.ctxs c))
   | .request r => .ok (.requests [reqView s r])
   | .requests svc prov =>
-    .ok (.requests ((s.activeB.filter (fun e => e.1 = svc ∧ e.2.1 = prov)).map (fun e => reqView s e.2.2.2)))
+    .ok (.requests (((FSet.elems s.activeB).filter (fun e => e.1 = svc ∧ e.2.1 = prov)).map (fun e => reqView s e.2.2.2)))
   | .requestsByCtx c batch =>
-    .ok (.requests ((s.reqs.filter (fun e => e.1.ctx = c ∧ e.1.batch = batch)).map (fun e => reqView s e.1)))
+    .ok (.requests (((entries s.reqs).filter (fun e => e.1.ctx = c ∧ e.1.batch = batch)).map (fun e => reqView s e.1)))
   | .response r => .ok (.response r (get s.resps r))
-  | .responses c batch => .ok (.responses (s.resps.filter (fun e => e.1.ctx = c ∧ e.1.batch = batch)))
+  | .responses c batch => .ok (.responses ((entries s.resps).filter (fun e => e.1.ctx = c ∧ e.1.batch = batch)))
   | .fees prov => .ok (.fees prov ((get s.earned prov).getD 0))
   | .params => .ok (.params s.params)
 
